@@ -36,7 +36,8 @@ RULE = ('(a) API histories over 8 names x 2 characters x 5 object classes (envir
         'Command-class environments (sloppypar, sloppy) and environments unknown to plasTeX (samepage, qunknownenv), '
         'tabular cells and rows, \\newenvironment-defined environments (empty / non-empty begin and end code, with and without an '
         'argument), \\textbf/\\emph/\\mbox/\\footnote/\\underline arguments with \\def, \\gdef, \\newcommand, \\let, \\catcode, '
-        '\\makeatletter/\\makeatother, \\newif, \\newcounter/\\setcounter, \\global\\def/\\global\\let and uses of the defined macros in '
+        '\\makeatletter/\\makeatother, \\newif, \\newcounter/\\setcounter, \\global\\def/\\global\\let, \\global in front of a '
+        'non-definition (\\relax, \\footrue, \\setcounter) directly followed by a local \\def/\\let, and uses of the defined macros in '
         'between; all 13 local changes x 14 group kinds x 2 nestings exhaustively; plus environments closed over an unclosed group and '
         'groups closed over an unclosed environment. Non-trivial = the history has a group with a local change inside it and an observation after it closes.')
 TRUSTED = ['program level: \\begin{x}/\\end{x} are run by the Model itself (begin_env / end_env: class lookup, kind of class, push/pop), for '
@@ -614,6 +615,11 @@ def print_item(it):
         return '\\%s ' % NAMES[it[1]]
     if k == 'probe':
         return '\\probe '
+    if k == 'gnondef':
+        # \global in front of something that is not a definition: the prefix is used up by it (one shot) - whatever follows
+        # directly (no character token in between) is an ordinary, local assignment
+        return {'relax': '\\global\\relax', 'iftrue': '\\global\\qqtrue', 'iffalse': '\\global\\qqfalse',
+                'setcounter': '\\global\\setcounter{qc}{%s}' % (it[2] if len(it) > 2 else 0)}[it[1]]
     if k == 'gprefix':
         if it[1] == 'def':
             return '\\global\\def\\%s{\\logv{%d}}' % (NAMES[it[2]], it[3])
@@ -715,6 +721,11 @@ def compile_prog(case):
             marks.append(('use', len(ops), it[1]))
         elif k == 'probe':
             marks.append(('probe', len(ops), depth == 0))
+        elif k == 'gnondef':       # the switch / counter is interpreter-wide anyway; \global\relax does nothing
+            if it[1] in ('iftrue', 'iffalse'):
+                ops.append(['set', 0, 1 if it[1] == 'iftrue' else 0])
+            elif it[1] == 'setcounter':
+                ops.append(['set', 1, it[2]])
         elif k == 'gprefix':       # what TeX does: a global definition / a global \let
             if it[1] in ('def', 'longdef'):
                 ops.append(['addg', it[2], it[3]])
@@ -947,6 +958,8 @@ class PGen(object):
             return ['setcounter', rng.randint(0, 9)]
         if r < 0.9:
             return ['use', rng.choice([0, 1, 1, 6])]
+        if r < 0.93:
+            return ['gnondef', 'relax']
         return ['probe']
 
     def items(self, depth, in_math, in_arg, alias_visible, n=None):
@@ -1035,6 +1048,10 @@ def small_progs():
     pre = [['def', 0, 90], ['gdef', 1, 91], ['probe']]
     post = [['use', 0], ['use', 1], ['probe']]
     changes += [[['cat', 64, 11, ' ']], [['def', 0, 1], ['cat', 33, 13, ' ']]]
+    # \global is a one-shot prefix: after \global<not a definition> the adjacent \def / \let is local
+    changes += [[['gnondef', 'relax'], ['def', 0, 1]], [['gnondef', 'relax'], ['let', 1, 0]],
+                [['newif'], ['gnondef', 'iftrue'], ['def', 0, 1]], [['newcounter'], ['gnondef', 'setcounter', 2], ['let', 1, 0]],
+                [['newcounter'], ['gnondef', 'setcounter', 3], ['def', 1, 1], ['def', 0, 2]]]
     for kind in kinds:          # ...=11}  ...=11\\endgroup  ...=11\\end{center}  ...=11$  ...=11\\]  \\textbf{...=11}
         for bare in ([['cat', 64, 11, '']], [['def', 0, 1], ['probe'], ['cat', 33, 13, '']], [['cat', 64, 11, ''], ['probe']]):
             yield dict(kind='prog', prog=pre + [['grp', kind, bare]] + post)
@@ -1112,6 +1129,14 @@ def rand_gprefix(rng):
     g = PGen(rng, 2)
     kind = rng.choice(['brace', 'begingroup', 'center', 'math', 'textbf', 'tabular'])
     r = rng.random()
+    if rng.random() < 0.35:     # \global<non-definition> directly followed by a local \def / \let
+        pre = rng.choice([[['gnondef', 'relax']], [['newif'], ['gnondef', rng.choice(['iftrue', 'iffalse'])]],
+                          [['newcounter'], ['gnondef', 'setcounter', rng.randint(0, 9)]]])
+        loc = rng.choice([['def', rng.choice([0, 1]), 72], ['let', 1, 0], ['let', 0, 6]])
+        body = g.items(1, kind == 'math', kind == 'textbf', True, rng.randint(0, 1)) + pre + [loc, ['use', 0], ['use', 1], ['probe']]
+        node = ['tabular', [[[['probe']], body]]] if kind == 'tabular' else ['grp', kind, body]
+        return dict(kind='prog', prog=[['def', 0, 1], ['gdef', 1, 2], ['probe'], ['grp', 'brace', [node, ['use', 0], ['use', 1], ['probe']]],
+                                       ['use', 0], ['use', 1], ['probe']])
     if r < 0.4:
         it = ['gprefix', 'def', rng.choice([0, 1]), 70]
     elif r < 0.55:
@@ -1239,7 +1264,7 @@ def tags(case, io):
                         walk(x, d + 1)
                 elif it[0] in ('cat', 'atletter', 'atother'):
                     kinds.add('catcode')
-                elif it[0] in ('gprefix', 'let', 'lettok', 'gdef'):
+                elif it[0] in ('gprefix', 'let', 'lettok', 'gdef', 'gnondef'):
                     kinds.add(it[0])
         walk(case['prog'], 0)
         t += ['in:' + k for k in sorted(kinds)]
@@ -1452,6 +1477,9 @@ def prog_ok(items, seen=None):
         if it[0] in ('newif', 'newcounter'):
             seen.add(it[0])
         elif it[0] in ('iftrue', 'iffalse') and 'newif' not in seen:
+            return False
+        elif it[0] == 'gnondef' and ((it[1] in ('iftrue', 'iffalse') and 'newif' not in seen) or
+                                     (it[1] == 'setcounter' and 'newcounter' not in seen)):
             return False
         elif it[0] == 'setcounter' and 'newcounter' not in seen:
             return False
